@@ -30,7 +30,7 @@ func c16Specs() []*bfsSpec {
 	return []*bfsSpec{
 		{Name: "c16-nonfast", Cfg: worldCfg{Geom: "gshort", Peers: []peerCfg{{}}, Have: []int{0, 2}, AutoDrain: true}, Alphabet: up, Depth: 5, DepthT: 7},
 		{Name: "c16-fast", Cfg: worldCfg{Geom: "gshort", Peers: []peerCfg{{Fast: true, Ext: true, DontHave: 7}}, Have: []int{0, 2}, AutoDrain: true},
-			Setup: []string{"interested:0", "unchokepeer:0"}, Alphabet: append([]string{"flood:0:251", "req:0:0:0:4294967295"}, up...), Depth: 4, DepthT: 6},
+			Setup: []string{"interested:0", "unchokepeer:0"}, Alphabet: append([]string{"flood:0:251", "req:0:0:0:4294967295"}, up...), Depth: 5, DepthT: 6},
 		{Name: "c16-2remotes", Cfg: worldCfg{Geom: "g2x2", Peers: []peerCfg{{Fast: true}, {}}, Have: []int{0, 1}, AutoDrain: true},
 			Alphabet: []string{"interested:0", "interested:1", "notinterested:0", "utick", "unchokepeer:0", "unchokepeer:1", "chokepeer:0", "req:0:0:0:16384", "req:1:1:16384:16384", "ucancel:1",
 				"advms:300", "close:0", "close:1", "stall:1", "resume:1", "evict"},
